@@ -6,9 +6,9 @@ from ..runner import run_check
 # Proto/StopWhen.lean).  The remaining scenarios of that file run under C01.
 WA_SCENARIOS = ["wa2_err_stop", "wa2_done_inl", "wa2_err_inl", "wa2_stop_inl", "wa2_errinl_stop", "wa3_stop_inl", "wa3_mix", "war3_mix"]
 SW_SCENARIOS = ["sw_stop_inl", "sw_trg_stop", "sw_stop"]
-QUICK = dict(preemptions=2, max_execs=120)
-THOROUGH = dict(preemptions=3, max_execs=20000)
-RANDOM = (40, 3000)
+QUICK = dict(preemptions=2, max_execs=1000)
+THOROUGH = dict(preemptions=3, max_execs=60000)
+RANDOM = (300, 5000)
 
 
 def atomic_parts():
